@@ -21,7 +21,7 @@ var skipInit = map[string]bool{
 	"github.com/sirupsen/logrus": true, "log": true, "crypto/md5": true, "reflect": true,
 	"internal/godebug": true, "internal/cpu": true, "sync": true, "sync/atomic": true, "math/rand": true,
 	"expvar": true, "net/http": true, "crypto/tls": true, "crypto/x509": true, "fmt": true,
-	"github.com/Dieterbe/go-metrics": true, "internal/bytealg": true, "regexp": true, "regexp/syntax": true,
+	"github.com/Dieterbe/go-metrics": true, "internal/bytealg": true, "regexp": true,
 	"encoding/json": true, "flag": true, "testing": true, "os/signal": true,
 }
 
